@@ -316,12 +316,26 @@ OTHER = ['ndarray', 'ndarray2d', 'npscalar', 'dataclass', 'set', 'frozenset', 'b
 def put_file(path, data):
     '''fresh file with this content (unlink first: re-truncating an existing
     file is two orders of magnitude slower on ext4)'''
-    if os.path.isdir(path):
-        shutil.rmtree(path)
-    elif os.path.exists(path):
-        os.unlink(path)
+    unlink_any(path)
     with open(path, 'wb') as fil:
         fil.write(data)
+
+
+def unlink_any(path):
+    '''remove whatever is at this path: file, (dangling or looping) symlink, directory tree'''
+    if os.path.islink(path) or os.path.isfile(path):
+        os.unlink(path)
+    elif os.path.isdir(path):
+        shutil.rmtree(path)
+    elif os.path.lexists(path):
+        os.unlink(path)
+
+
+def repair_dir(path):
+    '''a task directory that was replaced by a file or a symlink is cleared away (the
+    next run of the task creates its directory again)'''
+    if os.path.islink(path) or os.path.isfile(path):
+        os.unlink(path)
 
 
 class Limits:
@@ -611,8 +625,62 @@ NATURAL = {
 }
 
 
+OS_WITNESSES = ['enoent', 'eisdir', 'enotdir', 'eloop', 'eloop-dir', 'enametoolong', 'epathtoolong',
+                'dangling-symlink', 'chmod-000', 'enoent-dir']
+
+
+def os_witness(ctx, which):
+    '''a path whose open() fails at the operating-system level'''
+    base = os.path.join(ctx.wd(), 'oswitness')
+    unlink_any(base)
+    os.makedirs(base)
+    path = os.path.join(base, 't0', FILENAME)
+    os.makedirs(os.path.dirname(path))
+    if which == 'enoent':
+        pass
+    elif which == 'enoent-dir':
+        path = os.path.join(base, 'no-such-task', FILENAME)
+    elif which == 'eisdir':
+        os.makedirs(path)
+    elif which == 'enotdir':
+        os.rmdir(os.path.dirname(path))
+        put_file(os.path.dirname(path), b'not a directory')
+    elif which == 'eloop':
+        os.symlink(path, path)
+    elif which == 'eloop-dir':
+        os.rmdir(os.path.dirname(path))
+        os.symlink(os.path.dirname(path), os.path.dirname(path))
+    elif which == 'enametoolong':
+        path = os.path.join(base, 'n' * 300, FILENAME)
+    elif which == 'epathtoolong':
+        path = os.path.join(base, *(['d' * 200] * 25), FILENAME)
+    elif which == 'dangling-symlink':
+        os.symlink(os.path.join(base, 'nowhere'), path)
+    elif which == 'chmod-000':
+        put_file(path, pickle.dumps(None))
+        os.chmod(path, 0)
+    return base, path
+
+
 def run_caught(ctx, mods, case, out):
     name = case['cls']
+    if case['how'] == 'os':
+        base, path = os_witness(ctx, case['which'])
+        try:
+            with open(path, 'rb'):
+                err = None
+        except OSError as exc:
+            err = type(exc).__name__ + f'/errno {exc.errno}'
+        obs = call_from_file(mods, path)
+        unlink_any(base)
+        ctx.count('caught_os_' + case['which'] + ('' if err else '_opens'))
+        if obs[0] == 'raise':
+            ctx.oracle_failure(f'Env.from_file raises {obs[2]} for an environment file that cannot be opened '
+                               f':: {case["which"]}: open() fails with {err}, {json.dumps(case)}', case,
+                               key='from_file-raises-' + obs[1])
+        if err:
+            out.append((case, f'CCaught XOSError {"false" if obs[0] == "raise" else "true"}'))
+        return True
     path = os.path.join(ctx.wd(), 'caught.env')
     if case['how'] == 'natural':
         data = NATURAL[name]
@@ -1010,13 +1078,17 @@ def gen_fs_ops(rng, idx, names):
         for _ in range(rng.choice([0, 1, 1, 2, 3])):
             name = rng.choice(names + ['elsewhere'])
             kind = rng.choice(['cut', 'cut', 'cut', 'empty', 'delete', 'garbage', 'dir',
-                               'nonenv', 'stop-appended'])
+                               'nonenv', 'stop-appended', 'taskdir-is-file', 'taskdir-symlink-loop',
+                               'dangling-symlink', 'symlink-loop', 'symlink-to-dir', 'chmod-000'])
             ops.append([kind, name, rng.random(), rng.getrandbits(32)])
         rnames = list(names)
         if rng.random() < 0.3:
             rng.shuffle(rnames)
         if rng.random() < 0.2:
             rnames = rnames[:rng.randint(0, len(rnames))] + ['ghost']
+        if rng.random() < 0.2:
+            # tasks whose directory name no file system accepts (NAME_MAX, PATH_MAX)
+            rnames.insert(rng.randint(0, len(rnames)), rng.choice(['n' * 256, 'n' * 300, 'é' * 128, 'p' * 5000]))
         ops.append(['read', rnames])
         # the same process goes on: the result of the read is modified in memory (a run),
         # files are rewritten with content of the same size, and the files are read again
@@ -1151,6 +1223,8 @@ def run_fs_at(ctx, mods, case, out, place):
         for dirpath, _dirs, files in os.walk(root):
             for fname in files:
                 p = os.path.join(dirpath, fname)
+                if os.path.islink(p) or not os.path.isfile(p) or not os.access(p, os.R_OK):
+                    continue
                 with open(p, 'rb') as fil:
                     snap[p] = (fil.read(), os.stat(p).st_mtime_ns)
         return snap
@@ -1174,10 +1248,16 @@ def run_fs_at(ctx, mods, case, out, place):
             env = build(['E', entries], {}, mods)
             for name, sub in env.items():
                 if 'output_dir' in sub:
+                    repair_dir(sub['output_dir'].rstrip('/'))
                     os.makedirs(sub['output_dir'], exist_ok=True)
-                    p = rp(os.path.join(sub['output_dir'], FILENAME))
+                    spelled = os.path.join(sub['output_dir'], FILENAME)
+                    if os.path.islink(spelled):
+                        os.unlink(spelled)
+                    p = rp(spelled)
                     if os.path.isdir(p):
                         shutil.rmtree(p)
+                    elif os.path.isfile(p) and not os.access(p, os.W_OK):
+                        os.chmod(p, 0o644)
             # make sure every rewritten file is noticed: remove the old ones first is
             # NOT done (the implementation must truncate them itself)
             before = snapshot()
@@ -1295,15 +1375,51 @@ def run_fs_at(ctx, mods, case, out, place):
             name, frac, seed = op[1], op[2], op[3]
             p = fpath(name)
             bp = cbytes(p.encode())
+            pdir = os.path.dirname(p)
+            repair_dir(pdir)
+            if os.path.islink(p):
+                os.unlink(p)
             exists = os.path.isfile(p)
-            if kind in ('cut', 'stop-appended') and not exists:
+            if kind in ('cut', 'stop-appended', 'chmod-000') and not exists:
                 continue
-            os.makedirs(os.path.dirname(p), exist_ok=True)
+            os.makedirs(pdir, exist_ok=True)
             if os.path.isdir(p):
                 shutil.rmtree(p)
+            if exists:
+                os.chmod(p, 0o644)
             ctx.count('fs_' + kind)
             nontrivial[0] = True
-            if kind == 'cut':
+            if kind in ('taskdir-is-file', 'taskdir-symlink-loop', 'dangling-symlink', 'symlink-loop',
+                        'symlink-to-dir', 'chmod-000'):
+                # damage to the output tree that makes open() fail at the operating-system level
+                if kind == 'taskdir-is-file':
+                    shutil.rmtree(pdir)
+                    put_file(pdir, b'this was a directory')
+                elif kind == 'taskdir-symlink-loop':
+                    shutil.rmtree(pdir)
+                    os.symlink(pdir, pdir)
+                elif kind == 'dangling-symlink':
+                    unlink_any(p)
+                    os.symlink(os.path.join(pdir, 'gone'), p)
+                elif kind == 'symlink-loop':
+                    unlink_any(p)
+                    os.symlink(p, p)
+                elif kind == 'symlink-to-dir':
+                    unlink_any(p)
+                    os.symlink(root, p)
+                else:
+                    os.chmod(p, 0)
+                try:
+                    with open(p, 'rb'):
+                        opened = True
+                except OSError:
+                    opened = False
+                if opened:
+                    ctx.count('fs_' + kind + '_still_opens')      # e.g. chmod 000 as root
+                else:
+                    truth[p] = ('bad',)
+                    coq_ops.append(f'ONoRead {bp}')
+            elif kind == 'cut':
                 size = os.path.getsize(p)
                 if size == 0:
                     continue
@@ -1388,6 +1504,8 @@ def gen_cases(ctx):
             if how == 'natural' and NATURAL.get(name) is None and name != 'OSError':
                 continue
             cases.append({'kind': 'caught', 'cls': name, 'how': how})
+    for which in OS_WITNESSES:
+        cases.append({'kind': 'caught', 'cls': 'OSError', 'how': 'os', 'which': which})
     cases.append({'kind': 'fs', 'idx': 0, 'names': ['t0', 't1'], 'ops': [
         ['write', [['t0', gen_entry(rng, 't0', '{root}', status=3, rich=False)],
                    ['t1', gen_entry(rng, 't1', '{root}', status=3, rich=False)]]],
@@ -1422,6 +1540,14 @@ def gen_cases(ctx):
         cases.append({'kind': 'dec', 'env': tiny, 'proto': 4, 'variant': 'plain', 'envmode': mode})
     # --- written by one process, read by fresh ones (oracle only)
     cases.append(gen_mp_case(rng, 20 if quick else 200, 3 if quick else 5))
+    # damaged output trees: open() of a task's file fails with ENOTDIR, ELOOP, EISDIR, ENAMETOOLONG, ...
+    tasks = ['t0', 't1', 't2', 't3', 't4', 't5', 't6']
+    ents = [[n, gen_entry(rng, n, '{root}', status=3, rich=False)] for n in tasks]
+    cases.append({'kind': 'fs', 'idx': 100100, 'names': tasks, 'ops': [
+        ['write', ents], ['taskdir-is-file', 't0', 0, 0], ['symlink-loop', 't1', 0, 0],
+        ['taskdir-symlink-loop', 't2', 0, 0], ['dangling-symlink', 't3', 0, 0], ['dir', 't4', 0, 0],
+        ['chmod-000', 't5', 0, 0], ['read', tasks + ['n' * 300, 'p' * 5000]],
+        ['write', ents], ['symlink-to-dir', 't6', 0, 0], ['read', ['p' * 5000] + tasks]]})
     # --- large entries (oracle only): > 64 KiB (several frames), > 1 MiB
     mib = 2 ** 20
     large = [('bytes', mib + 4096), ('ints', mib + mib // 4), ('str', 300000)]
@@ -1435,7 +1561,7 @@ def gen_cases(ctx):
         if i % 3 == 0:
             cases[-1]['envmode'] = 'tmpdir-other-fs'
     # --- random environments, protocols and framings, every truncation offset
-    nenv = 100 if quick else 1200
+    nenv = 90 if quick else 1200
     for _ in range(nenv):
         spec = gen_env_spec(rng)
         proto, variant = rng.choice([(4, 'plain'), (4, 'plain'), (4, 'noframe'), (4, 'noframe'),
@@ -1455,11 +1581,11 @@ def gen_cases(ctx):
                           'pseed': rng.getrandbits(30), 'proto': rng.choice([0, 1, 2, 3, 4, 5]),
                           'wrap': rng.random() < 0.6})
     # --- file-system histories
-    nfs = 120 if quick else 2500
+    nfs = 100 if quick else 2500
     for i in range(nfs):
         cases.append(gen_fs_case(rng, i + 1))
     # --- corrupted files (oracle only)
-    ncor = 1500 if quick else 20000
+    ncor = 1000 if quick else 20000
     for _ in range(ncor // 10):
         spec = gen_env_spec(rng, rng.choice([1, 1, 2]))
         cases.append({'kind': 'corruptgen', 'env': spec, 'n': 10, 'seed': rng.getrandbits(32)})
